@@ -1,5 +1,5 @@
 """property -> rules"""
-from . import rules_dd, rules_bounds, rules_limits, rules_tools, rules_conv, rules_handles, rules_access, rules_coders, rules_errors, rules_layout, rules_ann, rules_mem, rules_sd, rules_cache, rules_attr, rules_gr
+from . import rules_dd, rules_bounds, rules_limits, rules_tools, rules_conv, rules_handles, rules_access, rules_coders, rules_errors, rules_layout, rules_ann, rules_mem, rules_sd, rules_cache, rules_attr, rules_gr, rules_ref
 
 CLANG = "clang 14 parser, constant evaluator and CFG builder (via tools/h4x.cc)"
 CDB = "compile flags taken from ninja -t compdb of /repo/_build (or a throw-away cmake configure)"
@@ -252,6 +252,23 @@ PROPS["C10"] = {
     "level_note": "Decides persistence only; equality of returned values is value-level.",
     "technique": "path-sensitive dirty-flag typestate over clang CFGs plus layout extraction",
 }
+
+PROPS["C12"]["rules"] = PROPS["C12"]["rules"] + [rules_ref.rule_maxref, rules_ref.rule_fresh_cursor]
+PROPS["C12"]["explanation"] += " (MAXREF) filerec_t.maxref, from which Hnewref's fast path hands out `++maxref` without looking at the directory, never decreases: every store is a constructor's 0, an increment guarded by `maxref < MAX_REF`, or `= e` guarded by `e > maxref`. (CURSOR) every whole-directory search (Hnewref's free-ref scan, HTPcreate's free-slot search, Hfind's first search) passes HTIfind_dd a cursor that is NULL on every path, so it cannot resume behind descriptors that are in use."
+PROPS["C20"]["rules"] = PROPS["C20"]["rules"] + [rules_ref.rule_maxref]
+PROPS["C20"]["explanation"] += " (MAXREF) the per-file highest-reference counter never decreases or wraps (see C12)."
+PROPS["C17"]["rules"] = PROPS["C17"]["rules"] + [rules_ref.rule_fresh_cursor]
+PROPS["C17"]["explanation"] += " (CURSOR) whole-directory searches start from a NULL cursor, so a new object can never be given a reference an older object already uses."
+PROPS["C01"]["rules"] = PROPS["C01"]["rules"] + [rules_ref.rule_ext_offset]
+PROPS["C01"]["explanation"] += " (EXTOFF) every posn-relative seek on an external element's stream adds extern_offset, the write-retry path included."
+PROPS["C16"]["rules"] = PROPS["C16"]["rules"] + [rules_ref.rule_ext_offset]
+PROPS["C16"]["explanation"] = PROPS["C16"]["explanation"].replace(" Not decided: whether", " (EXTOFF) the retry that HXPwrite performs after a failed write seeks to the same `posn + extern_offset` as the first attempt. Not decided: whether")
+
+PROPS["C08"]["rules"] = PROPS["C08"]["rules"] + [rules_ref.rule_shared_access_monotone]
+PROPS["C08"]["explanation"] += " (MONO) re-attaching a Vgroup that is already attached (nattach > 0) combines the old access mode with the requested one and never overwrites it, so an earlier write handle is not silently downgraded."
+PROPS["C14"]["rules"] = PROPS["C14"]["rules"] + [rules_ref.rule_bitflush_mode]
+PROPS["C14"]["explanation"] += " (BITFLUSH) the bit-I/O layer writes its buffer back (HIbitflush) only on paths where the bitfile is in write *mode*; being opened with write *access* is not enough, a buffer filled by reading must never be written."
+PROPS["C05"]["rules"] = PROPS["C05"]["rules"] + [rules_ref.rule_bitflush_mode]
 
 NOT_APPLICABLE = {
     "C18": "hrepack content preservation/idempotence is value-level over file x option products; no structural clause is a genuine "
